@@ -1232,6 +1232,16 @@ fn enc_stream(r: &Rng, out: &mut Out, n: usize, prefixes: bool, oversize: bool) 
             out.push(format!("enca {} ResultCode(1,Generic,{})", hex(&r.bytes(3)), hex(&vec![0x62; l - 4])));
             out.push(format!("enca . Q931CauseCode(1,2,{})", hex(&vec![0x63; l - 3])));
         }
+        // past 2^16 (a length narrowed to 16 bits before it is checked comes back into range): totals 65536+6 ..= 65536+1023
+        for l in [65529usize, 65530, 65531, 65535, 65536, 65537, 65600, 66000, 66553, 66554, 131072, 131078, 132000] {
+            out.push(format!("enca . {}({})", BYTE_KINDS[l % 9], hex(&vec![0x5a; l])));
+            out.push(format!("enca . {}({})", STR_KINDS[l % 4], hex(&vec![0x61; l])));
+            out.push(format!("enca . Hidden(7,{})", hex(&vec![0xa5; l])));
+            out.push(format!("enca 0102 ResultCode(1,Generic,{})", hex(&vec![0x62; l - 4])));
+            out.push(format!("enca . Q931CauseCode(1,2,{})", hex(&vec![0x63; l - 3])));
+            out.push(format!("hide Challenge({}) 7365637265 deadbeef . 000102030405060708090a0b0c0d0e0f", hex(&vec![0x44; l])));
+            out.push(format!("hide HostName({}) . 00000000 0102 000102030405060708090a0b0c0d0e0f", hex(&vec![0x45; l - 8])));
+        }
         out.push(format!("enca . Hidden(7,{})", hex(&r.bytes(1100))));
         out.push(format!("enca . Challenge({})", hex(&r.bytes(4096))));
         // control messages with total sizes 65520..65550
@@ -1497,7 +1507,7 @@ fn c08_stream(r: &Rng, out: &mut Out, n: usize) {
     for i in 0..n {
         match i % 4 {
             0 | 1 => {
-                let b = if i % 8 < 6 { valid_image(r, false) } else if r.chance(1, 2) { noncanonical(r) } else { data_image_noncanonical(r) };
+                let b = if r.below(8) < 5 { valid_image(r, false) } else if r.chance(1, 2) { noncanonical(r) } else { data_image_noncanonical(r) };
                 let s = match r.below(3) {
                     0 => r.bytes(1),
                     1 => valid_image(r, false),
@@ -1536,6 +1546,32 @@ fn c08_stream(r: &Rng, out: &mut Out, n: usize) {
                     recs.push(hex(&rec));
                 }
                 out.push(format!("cat {}", recs.join("|")));
+            }
+        }
+    }
+    // the declared length may cover 1..5 octets that belong to no AVP (fewer than a header): they are inside the
+    // message, the reader must stand behind them; every stray count, with and without records, before each kind of suffix
+    for stray in 0..=5usize {
+        for nrec in 0..3usize {
+            for sfx in 0..4usize {
+                let mut recs = vec![];
+                if nrec > 0 {
+                    recs.push(mt_record(r));
+                }
+                for _ in 1..nrec.max(1) {
+                    recs.push(good_record(r));
+                }
+                if stray > 0 {
+                    recs.push(r.bytes(stray));
+                }
+                let b = assemble(0x1320, r.u16x(), r.u16x(), r.u16x(), r.u16x(), &recs);
+                let s_ = match sfx {
+                    0 => vec![],
+                    1 => r.bytes(1),
+                    2 => valid_image(r, false),
+                    _ => r.bytes(6 + r.below(20)),
+                };
+                out.push(format!("sfx {} {} {}", opts(r), hex(&b), if s_.is_empty() { ".".to_string() } else { hex(&s_) }));
             }
         }
     }
@@ -1737,6 +1773,42 @@ fn c16_stream(out: &mut Out, thorough: bool) {
         }
     }
     out.push("named".to_string());
+    // the same fields where an AVP usually stands: behind a Message Type AVP, M bit clear / set, reserved flag bits,
+    // as a bare list and inside a control message (strict and lenient): an unassigned code is refused wherever it stands
+    let mut xs: Vec<u32> = (0..=64).collect();
+    xs.extend([127u32, 128, 255, 256, 257, 511, 512, 1023, 1024, 4660, 32767, 32768, 65279, 65280, 65534, 65535]);
+    let mt = record(1, 0, 0, &[0, 6]);
+    for x in xs {
+        let (hi, lo) = ((x >> 8) as u8, x as u8);
+        for fl in [0u8, 1, 0x3c, 0x3d] {
+            let mut recs: Vec<Vec<u8>> = vec![
+                record(fl, 0, 0, &[hi, lo]),
+                record(fl, 0, 1, &[0, 1, hi, lo]),
+                record(fl, 0, 1, &[0, 1, hi, lo, 0x61]),
+                record(fl, 0, 1, &[hi, lo]),
+                record(fl, 0, 29, &[hi, lo]),
+            ];
+            let mut body = vec![];
+            for _ in 0..16 {
+                body.extend_from_slice(&[0, 1]);
+            }
+            recs.push(record(fl, 0, x as u16, &body));
+            recs.push(record(fl, 0, x as u16, &[]));
+            for rec in recs {
+                for pos in [1usize, 2] {
+                    let mut l: Vec<Vec<u8>> = vec![mt.clone(); pos];
+                    l.push(rec.clone());
+                    if fl == 0 || pos == 1 {
+                        out.push(format!("avps {}", hex(&l.concat())));
+                    }
+                    if pos == 1 {
+                        let img = assemble(0x1320, 1, 2, 3, 4, &l);
+                        out.push(format!("dec {} {}", if fl & 1 == 0 { "111" } else { "000" }, hex(&img)));
+                    }
+                }
+            }
+        }
+    }
 }
 
 fn c17_stream(r: &Rng, out: &mut Out, n: usize) {
@@ -1823,6 +1895,79 @@ fn c18_stream(r: &Rng, out: &mut Out, n: usize) {
         }
         out.push(format!("rd {} {}", hex(&data), if ops.is_empty() { ".".to_string() } else { ops.join(",") }));
     }
+    // sub-readers that are used: carve one (P<n>), read inside it — also past its end with bytes(), which must be
+    // refused whatever lies behind the window in the parent's slice — carve another inside it, go back (Q), go on
+    for _ in 0..n {
+        let dl = r.below(80);
+        let data = r.bytes(dl);
+        let mut rems: Vec<usize> = vec![dl]; // remaining octets of the current reader and of the waiting parents
+        let mut ops: Vec<String> = vec![];
+        let k = 2 + r.below(24);
+        for _ in 0..k {
+            let rem = *rems.last().unwrap();
+            match r.below(10) {
+                0 | 1 if rems.len() < 4 => {
+                    let n = match r.below(5) {
+                        0 => 0,
+                        1 => rem,
+                        2 => rem.saturating_sub(1),
+                        _ => r.below(rem + 1),
+                    };
+                    *rems.last_mut().unwrap() -= n;
+                    rems.push(n);
+                    ops.push(format!("P{}", n));
+                }
+                2 if rems.len() > 1 => {
+                    rems.pop();
+                    ops.push("Q".to_string());
+                }
+                3 => {
+                    // bytes() past the end of the current reader by a little: inside the parent's slice when there is one
+                    let n = rem + 1 + r.below(4);
+                    ops.push(format!("b{}", n));
+                }
+                4 if rem >= 1 => {
+                    ops.push("u8".to_string());
+                    *rems.last_mut().unwrap() -= 1;
+                }
+                5 if rem >= 2 => {
+                    ops.push("u16".to_string());
+                    *rems.last_mut().unwrap() -= 2;
+                }
+                6 if rem >= 4 => {
+                    ops.push((if r.chance(1, 2) || rem < 8 { "u32" } else { "u64" }).to_string());
+                    *rems.last_mut().unwrap() -= if ops.last().unwrap() == "u32" { 4 } else { 8 };
+                }
+                7 => {
+                    let n = r.below(rem + 1);
+                    ops.push(format!("k{}", n));
+                    *rems.last_mut().unwrap() -= n;
+                }
+                8 => {
+                    let n = r.below(rem + 1);
+                    ops.push(format!("s{}", n));
+                    *rems.last_mut().unwrap() -= n;
+                }
+                _ => {
+                    let n = if r.chance(1, 3) { rem } else { r.below(rem + 1) };
+                    ops.push(format!("b{}", n));
+                    *rems.last_mut().unwrap() -= n;
+                }
+            }
+        }
+        while rems.len() > 1 {
+            rems.pop();
+            ops.push("Q".to_string());
+            if r.chance(1, 2) {
+                let rem = *rems.last().unwrap();
+                ops.push(format!("b{}", rem + 1));
+            }
+        }
+        out.push(format!("rd {} {}", hex(&data), ops.join(",")));
+    }
+    out.push("rd 0102030405060708 P3,b4,b3,Q,b5".to_string());
+    out.push("rd 0102030405060708 P3,P2,b3,u16,Q,b2,u8,Q,u32,u8".to_string());
+    out.push("rd 0102030405060708 u8,P0,b1,Q,P7,b8,b7".to_string());
     // slices around and beyond 64 KiB: a reader is a cursor over the slice it was given, however long
     for dl in [255usize, 256, 257, 4096, 65534, 65535, 65536, 65537, 70000, 131075] {
         let data = r.bytes(dl);
